@@ -227,6 +227,14 @@ func VerifC15_Prepare() {
 		vnd.Assume(pos[i] < p.size)
 		indices[phase0.ValidatorIndex(30+i)] = []phase0.CommitteeIndex{phase0.CommitteeIndex(pos[i])}
 	}
+	// the first member may hold a second position, in another subcommittee
+	second := vnd.Bool("second-position")
+	pos2 := uint64(0)
+	if second {
+		pos2 = vnd.U64("position2")
+		vnd.Assume(pos2 < p.size && pos2/(p.size/p.subnets) != pos[0]/(p.size/p.subnets))
+		indices[30] = append(indices[30], phase0.CommitteeIndex(pos2))
+	}
 	duty := synccommitteemessenger.NewDuty(slot, indices)
 	nacc := 0
 	for i := 0; i < m; i++ {
@@ -241,7 +249,11 @@ func VerifC15_Prepare() {
 		vnd.Assert(err == nil && sel.accs == nil, "C15.prepare.nothing-without-accounts")
 		return
 	}
-	vnd.Assert(len(sel.accs) == nacc && sel.slot == slot, "C15.prepare.selection-signed-for-members-with-account")
+	nsel := nacc
+	if second && hasAccount[0] {
+		nsel++
+	}
+	vnd.Assert(len(sel.accs) == nsel && sel.slot == slot, "C15.prepare.selection-signed-for-every-position-of-members-with-account")
 	if sel.fail {
 		vnd.Assert(err != nil, "C15.prepare.signer-error")
 		return
@@ -255,6 +267,10 @@ func VerifC15_Prepare() {
 		i := int(v - 30)
 		vnd.Assert(hasAccount[i], "C15.prepare.only-members-with-account")
 		wantSub := pos[i] / (p.size / p.subnets)
+		if i == 0 && second && sel.subs[k] != wantSub {
+			wantSub = pos2 / (p.size / p.subnets) // the member's other position
+			vnd.Cover("C15.prepare.second-subcommittee")
+		}
 		vnd.Assert(sel.subs[k] == wantSub, "C15.prepare.subcommittee-rule")
 		h := sha256.Sum256(sel.sigs[k][:])
 		isAgg := binary.LittleEndian.Uint64(h[:8])%modulo == 0
